@@ -4,6 +4,7 @@ import Driver.Mixer
 import Driver.Xbin
 import Driver.Errs
 import Driver.OMap
+import Driver.Lru
 
 def main (args : List String) : IO UInt32 := do
   match args with
@@ -12,4 +13,5 @@ def main (args : List String) : IO UInt32 := do
   | ["xbin"] => Drv.run DrvXbin.comp
   | ["errs"] => Drv.run DrvErrs.comp
   | ["omap"] => Drv.run DrvOMap.comp
+  | ["lru"] => Drv.run DrvLru.comp
   | _ => IO.eprintln "usage: driver <component>"; return 2
